@@ -20,7 +20,16 @@ def run_one(m, check_tests=False):
         if src.count(m["old"]) != 1:
             return "SKIP (anchor text occurs %d times)" % src.count(m["old"])
         src = src.replace(m["old"], m["new"])
-        for (o2, n2) in m.get("extra", []):
+        for ex in m.get("extra", []):
+            if len(ex) == 3:
+                f2, o2, n2 = ex
+                p2 = os.path.join(wt, f2)
+                s2 = open(p2).read()
+                if s2.count(o2) != 1:
+                    return "SKIP (extra anchor occurs %d times)" % s2.count(o2)
+                open(p2, "w").write(s2.replace(o2, n2))
+                continue
+            o2, n2 = ex
             if src.count(o2) != 1:
                 return "SKIP (extra anchor occurs %d times)" % src.count(o2)
             src = src.replace(o2, n2)
